@@ -206,6 +206,85 @@ pub fn generate<C: Suite>(tag: &str) -> Vec<Artefact> {
     out
 }
 
+/// A second artefact set (corpus B): corners that the first set does not contain - a
+/// caller-supplied ElGamal generator, the largest share identifiers, a 40-signer aggregate,
+/// long payloads, an extreme challenge.
+pub fn generate_extra<C: Suite>(tag: &str) -> Vec<Artefact> {
+    let n = C::NAME.to_string();
+    let mut out: Vec<Artefact> = Vec::new();
+    let k = key(tag, 50);
+    let sk = sk_from_rs::<C>(&k);
+    let pk = sk.public_key();
+    let skb = h(&k.to_be_bytes());
+    let msg = format!("golden-b message / {tag}").into_bytes();
+    let mut split_rng = ChaCha20Rng::from_seed(Sha256::digest(format!("golden-b split {tag}")).into());
+    let mut push = |kind: &str, scheme: &str, label: &str, items: Vec<Enc>, truth: Value, flags: Vec<String>| {
+        out.push(Artefact { suite: n.clone(), kind: kind.into(), scheme: scheme.into(), label: label.into(), items, truth, flags });
+    };
+    // ElGamal proof over a caller-supplied generator (trait-level API)
+    {
+        let hk = key(tag, 51);
+        let hpt = pk_gen::<C>() * sc_from_rs::<C>(&hk);
+        let mk = key(tag, 52);
+        let rng = ChaCha20Rng::from_seed(Sha256::digest(format!("golden-b elgamal {tag}")).into());
+        if let Ok((c1, c2, mp, bp, ch)) = <C as BlsElGamal>::seal_scalar_with_proof(pk.0, sc_from_rs::<C>(&mk), Some(hpt), None, rng) {
+            let p = ElGamalProof::<C> { ciphertext: ElGamalCiphertext { c1, c2 }, message_proof: mp, blinder_proof: bp, challenge: ch };
+            push("elgamal_proof_custom_generator", "", "h = k*P", vec![enc(&p)], json!({"sk": skb, "m": h(&mk.to_be_bytes()), "generator": h(&enc_pt(&hpt))}), vec![]);
+        }
+    }
+    // the two largest identifiers of a 2-of-255 split
+    let all = sk.split_with_rng(2, 255, &mut split_rng).expect("split 255");
+    let top: Vec<SecretKeyShare<C>> = all[253..].to_vec();
+    let top_hex: Vec<String> = top.iter().map(|s| h(&Vec::from(s))).collect();
+    push("secret_key_share_set", "", "ids 254,255 of 2-of-255", top.iter().map(enc).collect(), json!({"sk": skb, "t": 2}), vec![]);
+    let pks: Vec<PublicKeyShare<C>> = top.iter().map(|s| s.public_key().expect("pk share")).collect();
+    push("public_key_share_set", "", "ids 254,255 of 2-of-255", pks.iter().map(enc).collect(), json!({"sk": skb, "t": 2}), vec![]);
+    for s in SCHEMES {
+        let sn = s.name();
+        let ls_ = lscheme(s);
+        if s != Scheme::Aug {
+            let parts: Vec<SignatureShare<C>> = top.iter().map(|x| x.sign(ls_, &msg).expect("partial")).collect();
+            push("signature_share_set", sn, "ids 254,255 of 2-of-255", parts.iter().map(enc).collect(), json!({"sk": skb, "msg": h(&msg), "t": 2, "sk_shares": top_hex}), vec![]);
+        }
+        let ct = pk.sign_crypt(ls_, &msg);
+        let ds: Vec<SignDecryptionShare<C>> = top.iter().map(|x| ct.create_decryption_share(x).expect("share")).collect();
+        push("sign_decryption_share_set", sn, "ids 254,255 of 2-of-255", ds.iter().map(enc).collect(), json!({"ct": h(&Vec::from(&ct)), "msg": h(&msg), "t": 2, "sk_shares": top_hex}), vec![]);
+        // long payloads
+        for len in [130usize, 16384] {
+            let m = vec![0xc3u8; len];
+            let ct = pk.sign_crypt(ls_, &m);
+            push("signcrypt_ciphertext", sn, &format!("len={len}"), vec![enc(&ct)], json!({"sk": skb, "msg": h(&m)}), vec![]);
+        }
+        {
+            let m = vec![0x3cu8; 1000];
+            let id: Vec<u8> = vec![];
+            let ct = pk.encrypt_time_lock(ls_, &m, &id).expect("time lock");
+            let honest = sk.sign(ls_, &id).expect("sign id");
+            let mut truth = json!({"sk": skb, "msg": h(&m), "id": "", "opens_with": "sign(scheme, id)"});
+            let mut flags = vec![];
+            if ct_some(ct.decrypt(&honest)).as_deref() != Some(&m[..]) {
+                flags.push("honest_signature_did_not_open_at_generation".to_string());
+                truth["opens_with"] = json!("core_sign(sk, id, scheme tag) relabelled");
+            }
+            push("timelock_ciphertext", sn, "len=1000,empty id", vec![enc(&ct)], truth, flags);
+        }
+        // 40-signer aggregate (pairing products with more than 32 terms)
+        let ks: Vec<RS> = (100..140).map(|i| key(tag, i)).collect();
+        let msgs: Vec<Vec<u8>> = (0..40).map(|i| format!("large agg message {i} / {tag}").into_bytes()).collect();
+        let sigs: Vec<Signature<C>> = ks.iter().zip(&msgs).map(|(k, m)| sk_from_rs::<C>(k).sign(ls_, m).expect("sign")).collect();
+        let agg = AggregateSignature::<C>::from_signatures(&sigs).expect("aggregate");
+        push("aggregate_signature", sn, "40 signers", vec![enc(&agg)], json!({"sks": ks.iter().map(|k| h(&k.to_be_bytes())).collect::<Vec<_>>(), "msgs": msgs.iter().map(|m| h(m)).collect::<Vec<_>>()}), vec![]);
+        // proof of knowledge with the extreme challenge r-1
+        let sig = sk.sign(ls_, &msg).expect("sign");
+        let pmsg = aug_or_plain::<C>(s, &pk, &msg);
+        let y = ProofCommitmentChallenge::<C>(sc_from_rs::<C>(&(-RS::from(1u64))));
+        let (com, x) = ProofCommitment::<C>::generate(&pmsg, sig).expect("commit");
+        let pok = com.finalize(x, y, sig).expect("finalize");
+        push("proof_of_knowledge", sn, "challenge r-1", vec![enc(&pok)], json!({"sk": skb, "msg": h(&pmsg), "y": h(&y.to_be_bytes())}), vec![]);
+    }
+    out
+}
+
 // ------------------------------------------------------------------------------------------
 // consuming side
 // ------------------------------------------------------------------------------------------
@@ -533,6 +612,25 @@ pub fn check<C: Suite>(ctx: &mut Ctx, prop: &str, origin: &str, a: &Artefact) {
                 }
             }
         }
+        "elgamal_proof_custom_generator" => {
+            if let (Some(v), Some((k, sk))) = (j.dec3::<ElGamalProof<C>>(a, &a.items[0]), sk_of::<C>(&t["sk"])) {
+                if let (Some(m), Some(hr)) = (refimpl::rs_from_be(&uh(&t["m"])), RPk::<C>::dec(&uh(&t["generator"]))) {
+                    let lh = lp::<C>(hr);
+                    let ok = <C as BlsElGamal>::verify_proof(sk.public_key().0, Some(lh), v.ciphertext.c1, v.ciphertext.c2, v.message_proof, v.blinder_proof, v.challenge).is_ok();
+                    j.truth_ok(a, ok, "no-longer-verifies", json!({}));
+                    let dec = <C as BlsElGamal>::verify_and_decrypt(sk.0, Some(lh), v.ciphertext.c1, v.ciphertext.c2, v.message_proof, v.blinder_proof, v.challenge).ok().map(|p| enc_pt(&p));
+                    j.truth_ok(a, dec == Some(hr.mul(&m).enc()), "no-longer-decrypts", json!({}));
+                    let rp = refimpl::RElGamalProof::<C::R> {
+                        c1: r_pk::<C>(&v.ciphertext.c1).unwrap_or(RPk::<C>::id()),
+                        c2: r_pk::<C>(&v.ciphertext.c2).unwrap_or(RPk::<C>::id()),
+                        message_proof: rs_from_sc::<C>(&v.message_proof),
+                        blinder_proof: rs_from_sc::<C>(&v.blinder_proof),
+                        challenge: rs_from_sc::<C>(&v.challenge),
+                    };
+                    j.truth_ok(a, refimpl::elgamal_verify_gen::<C::R>(refimpl::sk_to_pk::<C::R>(&k), hr, &rp), "reference-rejects", json!({}));
+                }
+            }
+        }
         "elgamal_decryption_share_set" => {
             let vs: Vec<ElGamalDecryptionShare<C>> = a.items.iter().filter_map(|e| j.dec3::<ElGamalDecryptionShare<C>>(a, e)).collect();
             let tt = t["t"].as_u64().unwrap_or(2) as usize;
@@ -574,6 +672,24 @@ pub fn expected_cells(origin: &str, suite: &str) -> Vec<String> {
             for k in ["multi_signature", "multi_public_key", "signature_share_set"] {
                 v.push(format!("{origin}/{suite}/{k}/{}", s.name()));
             }
+        }
+    }
+    v
+}
+
+/// cells of the second artefact set
+pub fn expected_cells_extra(origin: &str, suite: &str) -> Vec<String> {
+    let mut v = vec![
+        format!("{origin}/{suite}/elgamal_proof_custom_generator"),
+        format!("{origin}/{suite}/secret_key_share_set"),
+        format!("{origin}/{suite}/public_key_share_set"),
+    ];
+    for s in SCHEMES {
+        for k in ["sign_decryption_share_set", "signcrypt_ciphertext", "timelock_ciphertext", "aggregate_signature", "proof_of_knowledge"] {
+            v.push(format!("{origin}/{suite}/{k}/{}", s.name()));
+        }
+        if s != Scheme::Aug {
+            v.push(format!("{origin}/{suite}/signature_share_set/{}", s.name()));
         }
     }
     v
